@@ -708,7 +708,10 @@ def run_impl_balanced(allcases):
     """core.run_impl_sharded cuts the case list into contiguous chunks; order the cases so that every chunk
     holds the same share of the expensive ones (exhaustive single-operation cases carry hundreds of operations)"""
     n = core.NPROC
-    order = sorted(range(len(allcases)), key=lambda i: -(len(allcases[i].get("ops", [])) + 3))
+    def cost(c):   # operations on the annotatable class cost about three times those on the dense one
+        return (len(c.get("ops", [])) + 3) * (1 if c.get("arr") else 3)
+
+    order = sorted(range(len(allcases)), key=lambda i: -cost(allcases[i]))
     bins = [order[k::n] for k in range(n)]
     size = (len(allcases) + n - 1) // n
     # chunks are cut every `size` items: pad the bins to that size by moving items from the tail
